@@ -1264,6 +1264,62 @@ func (r *c14Run) tripleCase(i, j, k int, lt, eq [][]string) int {
 	return id
 }
 
+// [v1..vn].groupByEqual(k->k).size(): the number of groups must be what a first-occurrence scan with the
+// implementation's own = answers gives (eq = answers of the pool's own representations)
+func (r *c14Run) groupCase(idx []int, eq [][]string) {
+	ops := make([]*c14CV, len(idx))
+	vals := make([]value.Value, len(idx))
+	for n, i := range idx {
+		ops[n] = r.pool[i]
+		if n < len(r.ovPos) {
+			ops[n] = r.ovPos[n]
+		}
+		vals[n] = ops[n].Build()
+	}
+	o := c14ObsN(evalExpr("l.groupByEqual(k->k).size()", []string{"l"}, value.NewList(vals...)))
+	id := r.nextID()
+	r.sum.Evaluations++
+	human := r.record(id, "group", "groupByEqual/"+c14Kinds(ops...)+"/spec", idx, "l.groupByEqual(k->k).size() -> "+o)
+	ix := make([]string, len(idx))
+	for n, i := range idx {
+		ix[n] = fmt.Sprint(i)
+	}
+	r.cw.Add(fmt.Sprintf("CGroup %d %s %s", id, CoqList(ix), o))
+	r.sum.Count("group_outcome", o)
+	// expected from the = answers
+	var groups []int
+	exp := ""
+scan:
+	for _, k := range idx {
+		for _, g := range groups {
+			switch eq[g][k] {
+			case c14OT:
+				continue scan
+			case c14OE:
+				exp = c14OE
+				break scan
+			}
+		}
+		groups = append(groups, k)
+	}
+	if exp == "" {
+		exp = fmt.Sprintf("(ON %d)", len(groups))
+	}
+	if exp != o {
+		r.violation(id, "groupByEqual", "groups-by-eq", fmt.Sprintf("groupByEqual makes %s groups, grouping by the implementation's own = answers gives %s", o, exp), human, exp, o, ops...)
+	}
+	if o != c14OE && len(idx) >= 2 {
+		r.sum.Nontriv("group:" + fmt.Sprint(idx) + fmt.Sprint(len(r.ovPos)))
+	}
+}
+
+func (r *c14Run) groupVariant(i, j int, ra, rb string, eq [][]string) {
+	r.ovPos = []*c14CV{r.pool[i].withRepr(ra, 0), r.pool[j].withRepr(rb, 0)}
+	r.sum.Count("variant_group", "keys in other representations")
+	r.groupCase([]int{i, j}, eq)
+	r.ovPos = nil
+}
+
 // [v1..vn].order(x->x) for 4..10 operands
 func (r *c14Run) orderCase(idx []int, lt [][]string) {
 	vals := make([]value.Value, len(idx))
@@ -1324,7 +1380,7 @@ func cmdC14(seed int64, tier, outDir string) {
 	rg := NewRng(seed)
 	sum := NewSummary("C14", seed, tier)
 	sum.Rule = "curated pool (ints around 0, +-1, +-(2^53-1), 2^53; floats +-0, +-inf, NaN, halves, neighbours of ints; strings incl. empty, prefixes, non-ASCII, astral, NUL; bools; nested lists in 4 representations; maps in 3 representations and different key orders; closures) plus random nested values and their numerically-equal twins: ALL unordered pairs x (= != < > <= >= min max switch order in both directions), ALL ordered pairs for ~, triples (exhaustive over the core subset + random) for transitivity, 3-argument min/max/order, 2-case switch, x~[y,z]; operands are rebuilt for every evaluation and passed as arguments to functions generated by value.New(). non-trivial = pair of different c14Kinds or nesting depth >= 2, membership in a non-empty list (or with a non-list left operand), triple with a<b<c or a=b=c; distinct by operand terms"
-	cw := NewCaseWriter(outDir, "From P2 Require Import Base.Prelude Sem.Num Sem.Syntax Sem.Ops Sem.OpsSpec Run.C14Run.", "c14_case", "c14_id", "(c14_im pool)", "(c14_is pool)", 4500)
+	cw := NewCaseWriter(outDir, "From P2 Require Import Base.Prelude Sem.Num Sem.Syntax Sem.Ops Sem.OpsSpec Run.C14Run.", "c14_case", "c14_id", "(c14_im pool)", "(c14_is pool)", 5000)
 	run := &c14Run{sum: sum, cw: cw, base: map[[2]int][]string{}}
 	finish := func() {
 		cw.Flush()
@@ -1367,6 +1423,12 @@ func cmdC14(seed int64, tier, outDir string) {
 			run.mem2Case(0, 1, 2, eq)
 		case "triple":
 			run.tripleCase(0, 1, 2, lt, eq)
+		case "group":
+			idx := make([]int, n)
+			for i := range idx {
+				idx[i] = i
+			}
+			run.groupCase(idx, eq)
 		case "order":
 			idx := make([]int, n)
 			for i := range idx {
@@ -1636,6 +1698,46 @@ func cmdC14(seed int64, tier, outDir string) {
 			other := withMaps[rg.Pick(len(withMaps))]
 			run.mem2Variant(o.opp, other, o.m, "m=listmap", mreprs[rg.Pick(len(mreprs))], mb, eq)
 			run.mem2Variant(o.m, o.opp, o.m, mb, "m=listmap", mreprs[rg.Pick(len(mreprs))], eq)
+		}
+	}
+	// ---- groupByEqual (derived from =): all ordered pairs of the curated pool, random triples, and the keys in
+	// other representations (same abstract value, phantom-key opponents)
+	nCur := sum.Extra["curated_pool_size"].(int)
+	for i := 0; i < nCur; i++ {
+		for j := 0; j < nCur; j++ {
+			// every pair that = can compare; one in six of the incomparable ones (thorough: all)
+			if eq[i][j] != c14OE || tier == "thorough" || (i+j)%6 == 0 {
+				run.groupCase([]int{i, j}, eq)
+			}
+		}
+	}
+	nGrp := 1500 * optBoost
+	if tier == "thorough" {
+		nGrp = 30000 * optBoost
+	}
+	for t := 0; t < nGrp; t++ {
+		idx := make([]int, 3+rg.Pick(3))
+		for k := range idx {
+			idx[k] = rg.Pick(n)
+		}
+		run.groupCase(idx, eq)
+	}
+	for _, i := range withLists {
+		for _, rp := range allL {
+			if tier == "thorough" || rg.Chance(0.3) {
+				run.groupVariant(i, i, rp, allL[rg.Pick(len(allL))], eq)
+			}
+		}
+	}
+	for _, i := range withMaps {
+		for _, mb := range mreprs {
+			run.groupVariant(i, i, mreprs[rg.Pick(len(mreprs))], mb, eq)
+		}
+	}
+	for _, o := range opps {
+		for _, mb := range mreprs {
+			run.groupVariant(o.opp, o.m, "m=listmap", mb, eq)
+			run.groupVariant(o.m, o.opp, mb, "m=listmap", eq)
 		}
 	}
 	// triples: exhaustive over the core subset, random over the whole pool
